@@ -51,7 +51,9 @@ func judgeC17(x scnResult, res *MonitorResult) {
 		}
 	}
 	final := x.ctx.state()
-	if negotiationWaits[final] {
+	// (a process that died while it was recovering — a crash scheduled into the restart itself — has no timer that
+	// could fire; the next restart handles the swap)
+	if negotiationWaits[final] && !dead && !x.w.dead {
 		res.addFinding("C17/"+x.sc.role+"/still-waiting-after-timeout/"+final, "after the timeout fired the swap is still in "+final, map[string]interface{}{"scenario": scenarioKey(x.sc.steps)})
 	}
 	if final == "State_SwapCanceled" && x.w.offerSent[x.ctx.id] && !cancelRecv && !cancelSent && !sendFaulted(x.sc.steps) {
